@@ -39,6 +39,20 @@ def run(ctx, log):
     for w in ["waar", "onwaar", "true", "false", "nul", "null", "nil", "niets", "en", "of", "niet", "not", "and", "or", "if", "else", "while", "for", "voor", "in", "tot", "doe", "einde", "end", "return", "geef", "break",
               "continue", "let", "var", "def", "fn", "function", "klasse", "class", "nieuw", "dit", "zelf", "lijst", "tekst", "getal", "andersals", "herhaal", "totdat", "Ja", "Nee", "Als", "Stel", "Functie", "ja_", "alsof", "stelt", "neen"]:
         trees.append([("let", w, ("int", 1)), ("expr", ("assign", ("id", w), ("infix", "+", ("id", w), ("int", 1)))), ("expr", ("fn", "f_" + w, [w], [("expr", ("id", w))])), ("expr", ("fn", w, ["p"], [("expr", ("id", "p"))])), ("expr", ("call", ("id", w), [("id", w)]))])
+    fnl = ("fn", "dubbel", ["x"], [("expr", ("infix", "*", ("id", "x"), ("int", 2)))])
+    anon = ("fn", "", ["x"], [("expr", ("id", "x"))])
+    for callee in (fnl, anon):
+        trees.append([("expr", ("call", callee, [("int", 5)]))])
+        trees.append([("let", "r", ("call", callee, [("int", 5)])), ("expr", ("id", "r"))])
+        trees.append([("expr", ("infix", "+", ("call", callee, [("int", 5)]), ("int", 1)))])
+        trees.append([("expr", callee), ("expr", ("int", 5))])                 # a function statement FOLLOWED by a separate statement
+    for alt in ([], [("expr", ("int", 1))]):
+        trees.append([("expr", ("if", ("id", "a"), [("expr", ("int", 1))], alt))])
+        trees.append([("expr", ("if", ("id", "a"), [], alt))])
+        trees.append([("expr", ("if", ("id", "a"), [("expr", ("int", 1))], [("expr", ("if", ("id", "b"), [("expr", ("int", 2))], alt))]))])
+        trees.append([("expr", ("while", ("id", "a"), alt))])
+        trees.append([("expr", ("fn", "leeg", [], alt))])
+        trees.append([("block", alt)])
     log("%d trees" % len(trees))
     texts, expect, which = [], [], []
     nlay = 3 if ctx.quick else 10
